@@ -370,8 +370,82 @@ def _fix_cfg(kind, cfg):
     return cfg
 
 
+# ------------------------------------------------------------------ Base64EncoderSerializer codec (kind 31)
+
+def _b64_ser(url, ck):
+    from easynetwork.serializers.wrapper.base64 import Base64EncoderSerializer
+    return Base64EncoderSerializer(sc.BytesPassThrough(), alphabet="urlsafe" if url else "standard", checksum=bool(ck),
+                                   separator=b"\r\n", limit=100000)
+
+
+def b64_cases(tier, rng, escalate):
+    """the real Base64EncoderSerializer.serialize / deserialize against Frame/Base64.v: every length 0..50 (all padding
+    shapes), both alphabets, checksum on/off; tokens deserialized: the produced one and tampered ones (one character
+    replaced inside the alphabet: still a well-formed token, wrong checksum or different payload)"""
+    import base64
+    import hashlib
+    thorough = tier == "thorough" or escalate
+    std = b"ABCDEFGHIJKLMNOPQRSTUVWXYZabcdefghijklmnopqrstuvwxyz0123456789+/"
+    for url in (0, 1):
+        alpha = std[:62] + (b"-_" if url else b"+/")
+        decode = base64.urlsafe_b64decode if url else base64.standard_b64decode
+        for ck in (0, 1):
+            ser = _b64_ser(url, ck)
+            for n in list(range(0, 50 if thorough else 20)) + [rng.randrange(50, 300) for _ in range(6 if thorough else 2)]:
+                for _rep in range(3 if thorough else 1):
+                    mode = rng.random()
+                    data = (bytes(rng.randrange(256) for _ in range(n)) if mode < 0.6
+                            else bytes(rng.choice([0, 255, 0xfb, 0xef, 0x3e, 0x3f]) for _ in range(n)))
+                    token = ser.serialize(data)
+                    tokens = []
+                    for _t in range(3):
+                        body_len = len(token.rstrip(b"="))
+                        if body_len == 0:
+                            break
+                        i = rng.randrange(body_len)
+                        c = rng.choice(alpha)
+                        tokens.append(token[:i] + bytes([c]) + token[i + 1:])
+                    table = []
+                    if ck:
+                        seen = set()
+                        for tok in [token] + tokens:
+                            raw = decode(tok)
+                            for body in (raw[:-32], data):
+                                if body not in seen:
+                                    seen.add(body)
+                                    table.append([body, hashlib.sha256(body).digest()])
+                    yield dict(input=[31, url, ck, data, table, tokens],
+                               tags=["kind31", "base64", "urlsafe" if url else "standard", f"checksum{ck}", f"len-mod3={n % 3}"],
+                               nontrivial=n >= 1)
+
+
+def run_b64(inp):
+    from easynetwork.exceptions import DeserializeError
+    _k, url, ck, data, _table, tokens = inp
+    ser = _b64_ser(url, ck)
+
+    def de(tok):
+        try:
+            return [0, sc.canon_packet(ser.deserialize(tok))]
+        except DeserializeError:
+            return [1]
+
+    token = ser.serialize(data)
+    return [token, de(token), [de(t) for t in tokens]]
+
+
+def b64_oracle(inp):
+    out = run_b64(inp)
+    if out[1] != [0, inp[3]]:
+        return f"Base64EncoderSerializer: deserialize(serialize(x)) != x for x={inp[3]!r}"
+    if any(b in out[0] for b in b"\r\n \t"):
+        return f"Base64EncoderSerializer: token contains whitespace: {out[0]!r}"
+    return None
+
+
 def cases(tier, rng, escalate):
     yield from ser_cases(tier, rng, escalate)
+    yield from b64_cases(tier, rng, escalate)
     yield from stapled_cases(tier, rng, escalate)
     yield from recv_cases(tier, rng, escalate)
     yield from generic_cases(tier, rng, escalate)
@@ -554,6 +628,8 @@ def _ser_setup(inp):
 
 
 def run_impl(inp):
+    if inp[0] == 31:
+        return run_b64(inp)
     if inp[0] == 30:
         return run_stapled(inp)
     if 4 <= inp[0] <= 8:
@@ -601,6 +677,8 @@ def oracle(inp):
         return ser_oracle(inp)
     if inp[0] == 30:
         return stapled_oracle(inp)
+    if inp[0] == 31:
+        return b64_oracle(inp)
     kind, cfg, _dec, chunks, impl, sent, valid = inp[:7]
     if not valid:
         return None
@@ -628,6 +706,8 @@ def shrink(inp):
         data = inp[3]
         for i in range(len(data)):
             yield [10, inp[1], inp[2], data[:i] + data[i + 1:], inp[4]]
+        return
+    if inp[0] == 31:
         return
     if inp[0] == 30:
         for inner in shrink(inp[4]):
